@@ -585,3 +585,41 @@ func constPlusIdent(info *types.Info, e ast.Expr) (string, int64, bool) {
 	}
 	return "", 0, false
 }
+
+// expandLocalsAny is expandExpr without the purity requirement: every single-assignment local is replaced by its
+// defining expression, also when that calls functions. Only for rules that look at the shape of a computation whose
+// operands are values of an immutable object (a time.Time), where evaluation order does not matter.
+func (p *Program) expandLocalsAny(fi *FuncInfo, e ast.Expr, depth int) ast.Expr {
+	if depth > 6 || e == nil {
+		return e
+	}
+	info := fi.Pkg.TypesInfo
+	switch x := e.(type) {
+	case *ast.ParenExpr:
+		return &ast.ParenExpr{X: p.expandLocalsAny(fi, x.X, depth+1)}
+	case *ast.Ident:
+		v, ok := info.Uses[x].(*types.Var)
+		if !ok || v.IsField() || v.Parent() == nil || v.Parent() == fi.Pkg.Types.Scope() {
+			return e
+		}
+		if !singleAssigned(info, fi.Decl.Body, v) {
+			return e
+		}
+		d := localDef(info, fi, x)
+		if d == nil {
+			return e
+		}
+		return &ast.ParenExpr{X: p.expandLocalsAny(fi, d, depth+1)}
+	case *ast.BinaryExpr:
+		return &ast.BinaryExpr{X: p.expandLocalsAny(fi, x.X, depth+1), Op: x.Op, OpPos: x.OpPos, Y: p.expandLocalsAny(fi, x.Y, depth+1)}
+	case *ast.UnaryExpr:
+		return &ast.UnaryExpr{Op: x.Op, OpPos: x.OpPos, X: p.expandLocalsAny(fi, x.X, depth+1)}
+	case *ast.CallExpr:
+		n := &ast.CallExpr{Fun: x.Fun, Lparen: x.Lparen, Ellipsis: x.Ellipsis, Rparen: x.Rparen}
+		for _, a := range x.Args {
+			n.Args = append(n.Args, p.expandLocalsAny(fi, a, depth+1))
+		}
+		return n
+	}
+	return e
+}
